@@ -8,7 +8,8 @@ package c02
 // network/host/port are what the real caddy.SplitNetworkAddress returned for addr when the line was
 // generated (net.SplitHostPort is a parameter of the model). With L the harness really listens on the
 // first socket, reads the key off listenerPool/unixSockets and asks caddy.ListenerUsage the way the
-// HTTP app's Stop does (network, JoinHostPort(0) of the expanded address).
+// HTTP app's Stop does (network, JoinHostPort(0) of the expanded address; the call site is pinned by
+// Gen.listenerUsageCalls / Props.usage_key_expression_matches_source).
 
 import (
 	"context"
